@@ -111,6 +111,12 @@ def _context(model, d):
 def report_faithful(ck, model, files, d, origin, ns_docs=None):
     sig = {'kind': 'faithful', 'path': d.general, 'how': _how(d)}
     sig.update(_context(model, d))
+    if sig.get('patches_of_type') == 'several' and sig['how'] == 'order' and d.general.endswith('.fields'):
+        # Several patches of one type are all applied (none is dropped: that IS judged), in the order the files
+        # reach the compiler; the declarations fix no other order across files, so the relative order of fields
+        # coming from different patches is not judged.
+        ck.stat('faithful.not_judged.multi_patch_field_order')
+        return
     ck.failing_input(
         'C02: %s differs between the Api and the model it was rendered from%s' % (d.general, ' (%s)' % d.why if d.why else ''),
         sig,
